@@ -232,12 +232,12 @@ theorem exec_gated (cfg : Cfg) (H : Hashes) (ops : List Op) (s : State) :
         unfold consultOut
         cases zr with
         | exc => simp [errorResult]
-        | excU => simp
+        | excU => simp [errorResult]
         | excB => simp
         | ret z =>
           cases yr with
           | exc => simp [errorResult]
-          | excU => simp
+          | excU => simp [errorResult]
           | excB => simp
           | ret y =>
             cases hp : p.enc
